@@ -43,6 +43,21 @@ CHECKS.update({
         "TLC validates: false only for cost > MaxSize or a doorkeeper rejection and then nothing stored; true implies stored and readable; deadlines follow the call; removals only by Delete, own deadline or eviction under pressure; "
         "nothing with cost > MaxSize admitted. A concurrent configuration (cost changes of one key arriving reordered) checks that nothing is evicted while the policy total is within capacity.",
    note="Sampled programs (random walks), not all; the Bloom filter of the doorkeeper is not modelled (its decisions are taken from the hook event)."),
+ "C07": dict(level="model_checking", ref="4 C07",
+   technique="TLA+ spec TinyLfu.tla (three regions with recorded sizes/counts, eviction walk, climber clamp, window resizing) model-checked by TLC; every white-box step of the real TinyLfu validated by TLC as a transition of the spec (TinyLfuTrace, exists admit outcomes) with the C07 invariants on every logged state",
+   text="TLC checks Structure/Bounds/WithinCap/termination of the eviction walk for capacities 1..4 (5 thorough), all sequences of insert/access/cost-update/remove/resize, every admit outcome and every climber amount; "
+        "a seeded white-box driver runs the real policy for capacities 1..8 with arbitrary sketch contents and sample counters, and TLC validates every logged state against the invariants and every transition against TinyLfu.tla.",
+   note="Sketch abstracted to arbitrary admit decisions, float hill-climber arithmetic to an arbitrary integer amount; unbounded capacities are not proved (Apalache run not built)."),
+ "C08": dict(level="model_checking", ref="4 C08",
+   technique="TLA+ spec ReadBuffer.tla (one action per atomic operation of Buffer.Add/Free) model-checked by TLC; TLC schedules replayed step by step on the real buffer by a deterministic scheduler over verif yield hooks; every step compared with the spec and NoInvent/progress validated by TLC (ReadBufferTrace)",
+   text="TLC checks NoInvent, token ownership and NoWedge over all interleavings of 2-3 readers on a ring of capacity 2-3 with the batch handed back after an arbitrary delay; random walks of the same spec with the real capacity 16 are executed on the real buffer one atomic step at a time "
+        "(state after every step compared with the spec), concurrent bursts run free, and after each the trace must show that later sequential hits are delivered again.",
+   note="Atomic-step grain relies on the verif yield hooks before each atomic load/CAS/store; dropping events is allowed (lossy), only invention, duplication and loss of progress are violations."),
+ "C13": dict(level="model_checking", ref="4 C13",
+   technique="TLA+ spec SingleFlight.tla (Group.Do with pooled call records, loader outcomes ok/err/panic/Goexit) model-checked by TLC; TLC schedules replayed on the real Group through verif hook points; cache-level loading histories with failing/panicking loaders validated by TLC (SingleFlightTrace, StoreTrace)",
+   text="TLC checks one-loader-per-key, shared results by invocation, no finished call left in the table, no record re-initialised while referenced and return of every call for 2-3 callers; the schedules are executed on the real Group (callers parked at hook points, scripted loader outcomes); "
+        "at cache level concurrent loading Gets with slow loaders that succeed, fail, panic or Goexit are recorded and TLC validates non-overlapping loader runs per key, results taken from an overlapping load, admission with the loader's cost and TTL, nothing stored after a failure and no blocked shard afterwards.",
+   note="Record identities and dups counters are read white-box at the hook points."),
  "C16": dict(level="model_checking", ref="4 C16", technique=STORE_T,
    text="Traces of concurrent drivers carry Stats/Len/Range/EstimatedSize results; TLC compares them with its own ledger at quiescent points: hits+misses = Get calls, hits = Gets answered from the map, Len = resident entries, "
         "EstimatedSize = their cost, Range visits each resident unexpired key once with its current value and stops when told. The model-level part is the accounting invariant of Store.tla.",
